@@ -100,6 +100,14 @@ func concretiseTable(t tableCand) string {
 				if j == 0 {
 					c = "`x\\|y`"
 				}
+			case "codepipe2": // several escaped pipes inside one code span, one in emphasis
+				if j == 0 {
+					c = "`x\\|y\\|z` *e\\|f* `\\|\\|`"
+				}
+			case "escpipe2":
+				if j == 0 {
+					c = "a\\|b\\|c \\| d"
+				}
 			case "emptycells":
 				if j%2 == 0 {
 					c = ""
